@@ -52,6 +52,9 @@ func NewAdditiveOTSender(ctxHash *hash.Hash, setup *CorreOTSendSetup, batchSize 
 }
 
 func (r *AdditiveOTSender) Round1(msg *AdditiveOTReceiveRound1Message) (*AdditiveOTSendRound1Message, AdditiveOTSendResult, error) {
+	if msg == nil || msg.Msg == nil {
+		return nil, nil, errors.New("AdditiveOTSender Round1: message is missing its parts")
+	}
 	extendedResult, err := ExtendedOTSend(r.ctxHash, r.setup, r.batchSize, msg.Msg)
 	if err != nil {
 		return nil, nil, err
